@@ -9,7 +9,7 @@ RULE = (
     "case = (generated tree or single file: depth <= 4, fan-out <= 4, odd names, duplicate / empty / CRLF / around-1MiB contents, "
     "empty directories; store class local/base; link type default(reflink->copy)/copy/hardlink/symlink; state on/off; route: "
     "object-level checkout, index compare/apply with explicit file entries, index compare/apply with the directory as one "
-    "unloaded entry at the top or at a nested key; optionally: directory named with a trailing separator or through //, /./, /x/../ spellings, writable debris under final object names in a local store before the transfer, another location with shared contents staged for the same store and rewritten/removed between staging and transfer).  Bytes and paths of the checked-out location are compared with the "
+    "unloaded entry at the top, at a nested key or at the index's root key, explicit entries resolved through two caches (the nested one registered first); optionally: directory named with a trailing separator or through //, /./, /x/../ spellings, writable debris under final object names in a local store before the transfer, another location with shared contents staged for the same store and rewritten/removed between staging and transfer).  Bytes and paths of the checked-out location are compared with the "
     "generator's record; the reloaded directory object with an independently assembled listing.  non-trivial = >= 2 files or a "
     "nested path; distinct = (tree content, configuration)"
 )
@@ -19,7 +19,7 @@ ASSUMPTIONS = [
     "empty directories are not tracked (as the statement says) and are not expected back",
 ]
 MONITORS = "independent walk of the fresh location; reloaded Tree listing vs independent listing; reported nfiles/size vs data"
-REQUIRED_COUNTERS = ["staged_through_non_normalised_path", "staged_through_trailing_separator", "debris_objects_planted", "interleaved_stagings", "second_generation_roundtrips", "dirs_with_several_large_files", "restaged_after_checkout", "roundtrips", "files_compared", "route/object", "route/index-explicit", "route/index-lazy", "single_file_cases",
+REQUIRED_COUNTERS = ["staged_through_non_normalised_path", "staged_through_trailing_separator", "debris_objects_planted", "interleaved_stagings", "second_generation_roundtrips", "dirs_with_several_large_files", "restaged_after_checkout", "roundtrips", "files_compared", "route/object", "route/index-explicit", "route/index-lazy", "route/index-lazy-root", "two_cache_roundtrips", "single_file_cases",
                      "store/local", "store/base", "link/hardlink", "link/symlink", "link/copy", "link/default", "with_state", "listing_reloads"]
 
 
@@ -43,12 +43,12 @@ def run_shard(ctx):
             cls = rng.choice(["local", "local", "base"])
             link = rng.choice(["default", "copy", "hardlink", "symlink"])
             use_state = rng.random() < 0.5
-            route = rng.choice(["object", "object", "index-explicit", "index-lazy"])
+            route = rng.choice(["object", "object", "index-explicit", "index-lazy", "index-lazy-root"])
             big = 0.04 if rng.random() < 0.3 else 0.0
             if single:
                 files = {(gen.name(rng, odd=0.4),): gen.content(rng, big=0.1)}
                 empties = set()
-                if route == "index-lazy":
+                if route in ("index-lazy", "index-lazy-root"):
                     route = "index-explicit"
             else:
                 files, empties = gen.tree(rng, depth=rng.randrange(0, 5), fanout=4, odd=0.35, dup=0.4, min_files=1, big=big)
@@ -157,6 +157,9 @@ def run_shard(ctx):
                 top = "x"
                 if single:
                     idx[(top,)] = DataIndexEntry(key=(top,), meta=Meta(size=len(files[k0])), hash_info=HashInfo("md5", H("md5", files[k0])))
+                elif route == "index-lazy-root":
+                    # the directory object sits at the index's root key: the checkout location itself is the directory
+                    idx[()] = DataIndexEntry(key=(), meta=Meta(isdir=True), hash_info=HashInfo("md5", obj.hash_info.value))
                 elif route == "index-explicit":
                     idx[(top,)] = DataIndexEntry(key=(top,), meta=Meta(isdir=True), loaded=True)
                     for dk in indexlab.dirs_of(files):
@@ -184,8 +187,31 @@ def run_shard(ctx):
                                 idx[(top, *k)] = DataIndexEntry(key=(top, *k), meta=Meta(size=len(v)), hash_info=HashInfo("md5", H("md5", v)))
                     cfgd["lazy_at"] = "/".join(at)
                 errors = []
+                if route == "index-explicit" and not single and rng.random() < 0.3:
+                    # the files of one sub-directory live in a second cache, mounted at that prefix and registered FIRST
+                    subdirs_ = sorted(indexlab.dirs_of(files))
+                    if subdirs_:
+                        from dvc_data.index.index import StorageMapping as _SM
+
+                        sp_ = rng.choice(subdirs_)
+                        odb2 = env.odb_of_class(cls, os.path.join(d, "cache-sub"), state=state, **cfg)
+                        for k_, v_ in files.items():
+                            if k_[: len(sp_)] == sp_:
+                                o_ = H("md5", v_)
+                                src_ = odb.oid_to_path(o_)
+                                if os.path.exists(src_) and not any(files[k2] == v_ and k2[: len(sp_)] != sp_ for k2 in files):
+                                    odb2.add(src_, fs, o_)
+                                    os.chmod(src_, 0o644)
+                                    os.unlink(src_)
+                                elif os.path.exists(src_):
+                                    odb2.add(src_, fs, o_)
+                        idx.storage_map = _SM()
+                        idx.storage_map.add_cache(ObjectStorage(key=(top, *sp_), odb=odb2))
+                        idx.storage_map.add_cache(ObjectStorage(key=(), odb=odb))
+                        cfgd["second_cache_at"] = "/".join(sp_)
+                        res.count("two_cache_roundtrips")
                 diff = compare(None, idx)
-                apply(diff, os.path.dirname(out), fs, storage="cache", links=links, state=state,
+                apply(diff, out if route == "index-lazy-root" else os.path.dirname(out), fs, storage="cache", links=links, state=state,
                       onerror=lambda s, dst, e: errors.append((dst, repr(e))), update_meta=rng.random() < 0.5)
                 if errors:
                     res.violation("index-checkout-reported-errors", f"apply reported {errors[:2]}", case=case, detail=cfgd)
